@@ -1,7 +1,7 @@
 (* C10/Examples.v — non-vacuity: concrete instances of the hypotheses of the
    property theorems, and a few schedules replayed through the model. *)
 From XV Require Import lib.Bytes lib.Lts gen.SessClose C10.Model C10.Inv C10.Proofs C10.Closers
-  C10.Transmit C10.InLock C10.StateLock C10.Progress C10.Refute C10.Spec.
+  C10.Transmit C10.InLock C10.StateLock C10.Progress C10.Deadline C10.Refute C10.Spec.
 
 (* three Close callers and two transmitters interleaved: one tag, the late
    transmitters fail *)
@@ -42,13 +42,13 @@ Proof. vm_compute. eexists. repeat split; reflexivity. Qed.
 
 (* the read deadline: premises of C10_serve_leaves_loop with i_rdexp *)
 Example ex_deadline : exists s,
-  run step (init true [KServe; KSetDeadline true]) ([0; 0; 0] ++ [1; 1; 1]) = Some s /\
+  run step (init true [KServe; KSetDeadline DPast]) ([0; 0; 0] ++ [1; 1]) = Some s /\
   a_code (s_a s 0) = [OServeRead] /\ i_rdexp (s_i s) = true.
 Proof. vm_compute. eexists. repeat split; reflexivity. Qed.
 
 (* ... and without deadlines on the transport the read stays blocked *)
 Example ex_no_deadline : exists s,
-  run step (init false [KServe; KSetDeadline true]) ([0; 0; 0] ++ [1; 1; 1]) = Some s /\
+  run step (init false [KServe; KSetDeadline DPast]) ([0; 0; 0] ++ [1; 1]) = Some s /\
   i_rdexp (s_i s) = false /\ i_done (s_i s) = true /\ step s 0 = None.
 Proof. vm_compute. eexists. repeat split; reflexivity. Qed.
 
@@ -67,7 +67,28 @@ Proof. vm_compute. eexists. repeat split; try reflexivity. eexists. repeat split
 (* with a peer that does not read the closer waits in its write, holding only
    the output lock: Serve, SetCloseDeadline and a State reader go on *)
 Example ex_stalled : exists s,
-  run step (init true [KClose; KStall true; KServe; KSetDeadline false]) [1; 1; 0; 0; 0; 0; 2; 2; 3; 3] = Some s /\
+  run step (init true [KClose; KStall true; KServe; KSetDeadline DFuture]) [1; 1; 0; 0; 0; 0; 2; 2; 3; 3] = Some s /\
   step s 0 = None /\ o_pend (s_o s) = true /\ o_sl (s_o s) = None /\
   a_res (s_a s 3) = Some ENil /\ exists s', step s 2 = Some s'.
 Proof. vm_compute. eexists. repeat split; try reflexivity. eexists. reflexivity. Qed.
+
+(* the deadline is replaced: call 1 (short) is extended by call 2; the first
+   deadline passes (timer 3) without effect; the peer's stanza and closing tag
+   are served and Serve returns nil *)
+Example ex_extended : exists s,
+  run step (init true [KServe; KSetDeadline DFuture; KSetDeadline DFuture; KTimer 1; KPeer [PElem false false 4; PClose]])
+      ([0; 0; 0] ++ [1; 1; 2; 2; 3; 3] ++ [4; 4; 4] ++ repeat 0 18) = Some s /\
+  returned s 0 ENil /\ a_cause (s_a s 0) = CPeerClose /\ i_gen (s_i s) = Some 2 /\ i_passed (s_i s) = false.
+Proof. vm_compute. eexists. repeat split; reflexivity. Qed.
+
+(* shortened: the later call's deadline is the one that passes: Serve's read times out *)
+Example ex_shortened : exists s,
+  run step (init true [KServe; KSetDeadline DFuture; KSetDeadline DFuture; KTimer 2]) ([0; 0; 0] ++ [1; 1; 2; 2; 3; 3] ++ repeat 0 20) = Some s /\
+  returned s 0 ETimeout /\ a_cause (s_a s 0) = CTimeout /\ i_passed (s_i s) = true.
+Proof. vm_compute. eexists. repeat split; reflexivity. Qed.
+
+(* cleared with the zero time after it had passed: Serve goes on *)
+Example ex_cleared : exists s,
+  run step (init false [KServe; KSetDeadline DPast; KSetDeadline DZero; KPeer [PClose]]) ([1; 1; 2; 2; 3; 3] ++ repeat 0 15) = Some s /\
+  returned s 0 ENil /\ i_done (s_i s) = true /\ i_err (s_i s) = ECtxCanceled.
+Proof. vm_compute. eexists. repeat split; reflexivity. Qed.
